@@ -139,12 +139,13 @@ def main(tier):
         specs = [(dconv, ["-f", "%F %a %j"], "stdin"), (dconv, ["-S", "-f", "%G-W%V-%u"], "stdin"), (dconv, ["-i", "%y%m%d", "--base", "2012-01-01"], "stdin"),
                  (dadd, ["+1mo", "-1d"], "stdin"), (dadd, ["-S", "1w"], "stdin"), (dround, ["Mon"], "stdin"), (dround, ["-S", "+1mo"], "stdin"),
                  (ddiff, ["2012-03-08", "-f", "%d days %H hours"], "stdin"), (dgrep, [">=2012-01-01"], "stdin"), (dgrep, ["-v", "<2000-01-01"], "stdin"),
-                 (dconv, ["-f", "%s"], "args"), (dzone, ["Europe/Berlin", "Asia/Kathmandu"], "args"), (dadd, ["2012-03-08"], "dur"),
+                 (dconv, ["-f", "%s"], "args"), (dzone, ["Europe/Berlin", "Asia/Kathmandu"], "args"), (dadd, ["2012-03-08"], "dur"), (dadd, ["-S", "2012-03-08"], "dur"),
+                 (dadd, ["-q", "2012-03-08T10:00:00"], "dur"),
                  # several values as arguments: what is decided for one value (duration type, calendar, format) must not stick to the next
                  (ddiff, ["2012-03-01T12:00:00"], "args"), (ddiff, ["2012-03-01"], "args"), (ddiff, ["2012-03-01T12:00:00", "-f", "%d %H:%M:%S"], "args"),
                  (dadd, ["+1d"], "args"), (dadd, ["+90m"], "args"), (dround, ["Mon"], "args"), (dround, ["/1h"], "args"), (dconv, ["-f", "%F|%T"], "args"),
                  (dtest_dummy, [], "skip")]
-        durs = ["1d", "-1d", "1mo", "+2w", "3b", "-1y", "1h", "x1", "/1d", "1d1mo", "-3h", "-1d ", "+1d ", "-1d\t", " 1d", "-", "+", "1d -", "-2w x", "--1d", "1d", "2d"]
+        durs = ["1d", "-1d", "1mo", "+2w", "3b", "-1y", "1h", "x1", "/1d", "1d1mo", "-3h", "-1d ", "+1d ", "-1d\t", " 1d", "-", "+", "1d -", "-2w x", "--1d", "1d", "2d", "1d foo", "2w notes", "3h later", "1mo1d x"]
         specs = [x for x in specs if x[2] != "skip"]
         for tool, args, mode in specs:
             for k in range((6 if quick else 60) * (6 if mode == "dur" else 1)):
